@@ -232,7 +232,7 @@ impl<T: ?Sized, R: RawMutex> Mutex<T, R> {
 	pub fn scoped_lock<'a, Ret>(
 		&'a self,
 		key: impl Keyable,
-		f: impl FnOnce(&'a mut T) -> Ret,
+		f: impl FnOnce(&mut T) -> Ret,
 	) -> Ret {
 		unsafe {
 			// safety: we have the key
@@ -257,7 +257,7 @@ impl<T: ?Sized, R: RawMutex> Mutex<T, R> {
 	pub fn scoped_try_lock<'a, Key: Keyable, Ret>(
 		&'a self,
 		key: Key,
-		f: impl FnOnce(&'a mut T) -> Ret,
+		f: impl FnOnce(&mut T) -> Ret,
 	) -> Result<Ret, Key> {
 		unsafe {
 			// safety: we have the key
